@@ -4,6 +4,7 @@ CONSTANTS
   ShortModes = {"half"}
   MaxFaults = 1
   TraceFile = "traces.ndjson"
+  Files = 0
 INVARIANTS
   AcceptInv
 CHECK_DEADLOCK FALSE
